@@ -76,13 +76,44 @@ Lemma wlb_copy : forall h c r, wlb h c (ACopy :: r) = true -> h <> None /\ wlb h
 Proof. intros h c r H. cbn [wlb] in H. apply andb_true_iff in H. destruct H as (A & B). apply hb_eq_none in A. tauto. Qed.
 
 Definition is_wr (a : action) : bool :=
-  match a with AWrSlot _ _ _ | AWrHash _ | AWrSeal => true | _ => false end.
+  match a with
+  | AWrKey _ _ | AWrFit _ _ | AWrSlotSeal _ | AWrSlotSealV _ _ | AWrHash _ | AWrSeal | AWrSealV _ => true
+  | _ => false
+  end.
 
 Lemma wlb_wr : forall h c a r, is_wr a = true -> wlb h c (a :: r) = true ->
   h = Some true /\ c = false /\ wlb h false r = true.
 Proof.
   intros h c a r Ha H. destruct a; try discriminate; cbn [wlb] in H; repeat rewrite andb_true_iff in H;
     destruct H as ((A & B) & C); apply hb_eq_true in A; apply negb_true_iff in B; tauto.
+Qed.
+
+Lemma wlb_rdfields : forall h c i r, wlb h c (ARdFields i :: r) = true -> h <> None /\ wlb h c r = true.
+Proof. intros h c i r H. cbn [wlb] in H. apply andb_true_iff in H. destruct H as (A & B). apply hb_eq_none in A. tauto. Qed.
+
+(* hash / fitness are written as adjacent pairs on one slot *)
+Definition is_key (a : action) : bool := match a with AWrKey _ _ => true | _ => false end.
+
+Lemma pairs_tail : forall a r, pairs_ok (a :: r) = true -> pairs_ok r = true.
+Proof. intros a r H. destruct a; cbn [pairs_ok] in H; apply andb_true_iff in H; tauto. Qed.
+
+Lemma pairs_next_not_fit : forall a r i v r', pairs_ok (a :: r) = true -> is_key a = false ->
+  r <> AWrFit i v :: r'.
+Proof.
+  intros a r i v r' H Hk E. subst r. destruct a; try discriminate; cbn [pairs_ok] in H; discriminate.
+Qed.
+
+Lemma pairs_key_next : forall i k r, pairs_ok (AWrKey i k :: r) = true ->
+  exists v r', r = AWrFit i v :: r'.
+Proof.
+  intros i k r H. cbn [pairs_ok] in H. apply andb_true_iff in H. destruct H as (H & _).
+  destruct r as [|[] r']; try discriminate. apply N.eqb_eq in H. subst. eauto.
+Qed.
+
+Lemma ins_of_tail : forall a r, incl (ins_of r) (ins_of (a :: r)).
+Proof.
+  intros a r x Hx. destruct a; cbn [ins_of]; try exact Hx.
+  destruct r as [|[] r']; try exact Hx. right. exact Hx.
 Qed.
 
 Lemma wlb_ret : forall h c r, wlb h c (ARet :: r) = true -> c = false /\ wlb h false r = true.
@@ -94,8 +125,6 @@ Section Invariant.
 
   Definition good (k : key) (r : list word) : Prop := r = [] \/ k = key0 \/ In (k, r) INS.
   Definition slot_ok (s : slot) : Prop := skey s = key0 \/ In (skey s, sfit s) INS.
-  Definition ins_ok (a : action) : Prop :=
-    match a with AWrSlot _ k v => In (k, v) INS | _ => True end.
 
   Definition th_ok (rd : list tid) (wr : option tid) (mm : N -> slot) (t : tid) (th : thread) : Prop :=
     (exists c, wlb (holds th) c (acts th) = true /\ (pending th = true -> c = true)) /\
@@ -106,12 +135,20 @@ Section Invariant.
        acc th = firstn (length (acc th)) (sfit (mm (curi th)))) /\
     (pending th = false -> good (curk th) (acc th)) /\
     Forall (fun kr => good (fst kr) (snd kr)) (results th) /\
-    Forall ins_ok (acts th).
+    (incl (ins_of (acts th)) INS /\ pairs_ok (acts th) = true) /\
+    (* the value about to be written belongs to the key already written *)
+    (forall i v r, acts th = AWrFit i v :: r -> In (skey (mm i), v) INS).
+
+  (* every slot holds a stored pair, unless the exclusive holder is between the
+     two member writes of an assignment to it *)
+  Definition mem_ok (tl : list thread) (mm : N -> slot) : Prop :=
+    forall i, slot_ok (mm i) \/
+              exists t th v r, nth_error tl t = Some th /\ acts th = AWrFit i v :: r /\ holds th = Some true.
 
   Definition Inv (s : state) : Prop :=
     NoDup (readers s) /\
     (writer s <> None -> readers s = []) /\
-    (forall i, slot_ok (mem s i)) /\
+    mem_ok (ths s) (mem s) /\
     forall t th, nth_error (ths s) t = Some th -> th_ok (readers s) (writer s) (mem s) t th.
 
   Lemma th_ok_intro : forall rd wr mm t th c,
@@ -122,7 +159,8 @@ Section Invariant.
        acc th = firstn (length (acc th)) (sfit (mm (curi th)))) ->
     (pending th = false -> good (curk th) (acc th)) ->
     Forall (fun kr => good (fst kr) (snd kr)) (results th) ->
-    Forall ins_ok (acts th) ->
+    (incl (ins_of (acts th)) INS /\ pairs_ok (acts th) = true) ->
+    (forall i v r, acts th = AWrFit i v :: r -> In (skey (mm i), v) INS) ->
     th_ok rd wr mm t th.
   Proof. intros. unfold th_ok. split; [exists c; tauto|tauto]. Qed.
 
@@ -130,15 +168,16 @@ Section Invariant.
     th_ok rd wr mm t th ->
     (In t rd' <-> In t rd) -> (wr' = Some t <-> wr = Some t) ->
     (pending th = true -> mm' (curi th) = mm (curi th)) ->
+    (forall i v r, acts th = AWrFit i v :: r -> skey (mm' i) = skey (mm i)) ->
     th_ok rd' wr' mm' t th.
   Proof.
-    intros rd wr mm rd' wr' mm' t th (HW & HMs & HMx & HC & HA & HR & HI) Hrd Hwr Hmm.
+    intros rd wr mm rd' wr' mm' t th (HW & HMs & HMx & HC & HA & HR & HI & HF) Hrd Hwr Hmm Hfk.
     unfold th_ok. split; [exact HW|]. split; [tauto|]. split; [tauto|]. split.
     - intro Hp. rewrite (Hmm Hp). apply HC. exact Hp.
-    - split; [exact HA|split; [exact HR|exact HI]].
+    - split; [exact HA|split; [exact HR|split; [exact HI|]]].
+      intros i v r E. rewrite (Hfk i v r E). exact (HF i v r E).
   Qed.
 
-  (* a thread that holds no lock has no copy in progress *)
   Lemma unlocked_not_pending : forall rd wr mm t th,
     th_ok rd wr mm t th -> holds th = None -> pending th = false.
   Proof.
@@ -146,7 +185,13 @@ Section Invariant.
     destruct (pending th) eqn:Ep; [|reflexivity]. destruct (HC eq_refl) as (Hn & _). contradiction.
   Qed.
 
-  (* when t holds the exclusive lock every other thread holds nothing *)
+  Lemma head_fit_holds_x : forall rd wr mm t th i v r,
+    th_ok rd wr mm t th -> acts th = AWrFit i v :: r -> holds th = Some true.
+  Proof.
+    intros rd wr mm t th i v r ((c & Hw & _) & _) E. rewrite E in Hw.
+    destruct (wlb_wr _ _ (AWrFit i v) _ eq_refl Hw) as (H & _). exact H.
+  Qed.
+
   Lemma others_hold_nothing : forall s t t' th th',
     Inv s -> nth_error (ths s) t = Some th -> holds th = Some true ->
     nth_error (ths s) t' = Some th' -> t' <> t -> holds th' = None.
@@ -160,6 +205,19 @@ Section Invariant.
     - assert (In t' (readers s)) by (apply HMs'; reflexivity). rewrite Hrd in H. contradiction.
   Qed.
 
+  (* a slot is consistent for every thread whose next action is not the
+     second member write of an assignment, as soon as that thread holds a lock *)
+  Lemma slot_ok_for_holder : forall s t th j,
+    Inv s -> nth_error (ths s) t = Some th -> holds th <> None ->
+    (forall v r, acts th <> AWrFit j v :: r) -> slot_ok (mem s j).
+  Proof.
+    intros s t th j HI Ht Hh Hhead. pose proof HI as (_ & _ & Hm & Hth).
+    destruct (Hm j) as [Hok|(t2 & th2 & v & r & Ht2 & Ea & Hx)]; [exact Hok|exfalso].
+    destruct (Nat.eq_dec t t2) as [E|E].
+    - subst. rewrite Ht in Ht2. inversion Ht2; subst. exact (Hhead v r Ea).
+    - rewrite (others_hold_nothing s t2 t th2 th HI Ht2 Hx Ht E) in Hh. contradiction.
+  Qed.
+
   Ltac fold_pending th :=
     repeat match goal with
     | |- context [pending (mkth ?a ?h ?l ?ci ?ck (matched th) (whole th) ?ac ?rs)] =>
@@ -171,10 +229,13 @@ Section Invariant.
   Proof.
     intros s t th s' HInv Ht Hex.
     pose proof HInv as (Hnd & Hwr & Hm & Hth).
-    pose proof (Hth t th Ht) as ((c & Hw & Hpc) & HMs & HMx & HC & HA & HR & HI).
+    pose proof (Hth t th Ht) as ((c & Hw & Hpc) & HMs & HMx & HC & HA & HR & (HIi & HIp) & HF).
     unfold exec in Hex. destruct (acts th) as [|a r] eqn:Ea; [discriminate|].
-    assert (HIr : Forall ins_ok r) by (inversion HI; assumption).
-    assert (HIa : ins_ok a) by (inversion HI; assumption).
+    assert (HIr : incl (ins_of r) INS /\ pairs_ok r = true).
+    { split; [intros x Hx; apply HIi; apply ins_of_tail; exact Hx|exact (pairs_tail _ _ HIp)]. }
+    (* the new head is not a lone fitness write unless the old head wrote the key *)
+    assert (HFr : is_key a = false -> forall mm (i : N) (v : list word) r', r = AWrFit i v :: r' -> In (skey (mm i), v) INS).
+    { intros Hk mm i v r' E. exfalso. exact (pairs_next_not_fit _ _ _ _ _ HIp Hk E). }
     (* the other threads, for steps that leave the memory alone *)
     assert (Others : forall rd' wr' th1,
       (forall t', t' <> t -> (In t' rd' <-> In t' (readers s))) ->
@@ -185,7 +246,8 @@ Section Invariant.
       destruct (Nat.eq_dec t' t) as [->|Hne].
       - rewrite (nth_set_same _ _ _ _ _ Ht) in Hn. inversion Hn. subst. exact Hself.
       - rewrite nth_set_other in Hn by congruence.
-        apply (th_ok_other (readers s) (writer s) (mem s)); [apply Hth; exact Hn|apply Hrd'; exact Hne|apply Hwr'; exact Hne|reflexivity]. }
+        apply (th_ok_other (readers s) (writer s) (mem s));
+          [apply Hth; exact Hn|apply Hrd'; exact Hne|apply Hwr'; exact Hne|reflexivity|reflexivity]. }
     (* the other threads, for steps that write the memory (t holds the exclusive lock) *)
     assert (OthersW : holds th = Some true -> forall mm' th1,
       th_ok (readers s) (writer s) mm' t th1 ->
@@ -194,21 +256,38 @@ Section Invariant.
       destruct (Nat.eq_dec t' t) as [->|Hne].
       - rewrite (nth_set_same _ _ _ _ _ Ht) in Hn. inversion Hn. subst. exact Hself.
       - rewrite nth_set_other in Hn by congruence.
-        apply (th_ok_other (readers s) (writer s) (mem s)); [apply Hth; exact Hn|tauto|tauto|].
-        intro Hp. pose proof (others_hold_nothing s t t' th th' HInv Ht Hx Hn Hne) as Hnone.
-        rewrite (unlocked_not_pending _ _ _ _ _ (Hth t' th' Hn) Hnone) in Hp. discriminate. }
+        pose proof (others_hold_nothing s t t' th th' HInv Ht Hx Hn Hne) as Hnone.
+        apply (th_ok_other (readers s) (writer s) (mem s)); [apply Hth; exact Hn|tauto|tauto| |].
+        + intro Hp. rewrite (unlocked_not_pending _ _ _ _ _ (Hth t' th' Hn) Hnone) in Hp. discriminate.
+        + intros i v r0 E. rewrite (head_fit_holds_x _ _ _ _ _ _ _ _ (Hth t' th' Hn) E) in Hnone. discriminate. }
+    (* the memory invariant, for steps that leave the memory alone *)
+    assert (MemKeep : (forall i v, a <> AWrFit i v) -> forall th1, mem_ok (set_nth (ths s) t th1) (mem s)).
+    { intros Hna th1 i. destruct (Hm i) as [Hok|(t2 & th2 & v & r0 & Ht2 & Ea2 & Hx)]; [left; exact Hok|right].
+      destruct (Nat.eq_dec t2 t) as [->|Hne].
+      - rewrite Ht in Ht2. inversion Ht2; subst. rewrite Ea in Ea2. inversion Ea2. exfalso. exact (Hna _ _ H0).
+      - exists t2, th2, v, r0. rewrite nth_set_other by congruence. tauto. }
+    (* the memory invariant, for a write that keeps or empties the key and keeps the value *)
+    assert (MemWr : holds th = Some true -> (forall i v, a <> AWrFit i v) -> forall mm' th1,
+      (forall j, (skey (mm' j) = skey (mem s j) \/ skey (mm' j) = key0) /\ sfit (mm' j) = sfit (mem s j)) ->
+      mem_ok (set_nth (ths s) t th1) mm').
+    { intros Hx Hna mm' th1 Hsame j. left.
+      assert (Hok : slot_ok (mem s j)).
+      { apply (slot_ok_for_holder s t th j HInv Ht); [congruence|]. intros v r0 E. rewrite Ea in E.
+        inversion E. exact (Hna _ _ H0). }
+      destruct (Hsame j) as ([Ek|Ek] & Ef); [|left; exact Ek].
+      unfold slot_ok. rewrite Ek, Ef. exact Hok. }
     assert (Pc : c = false -> pending th = false).
     { intro Hc. destruct (pending th); [|reflexivity]. rewrite Hpc in Hc by reflexivity. discriminate. }
     assert (Pf : pending th = false -> forall X : Prop, pending th = true -> X).
     { intros E X E'. rewrite E in E'. discriminate. }
-    destruct a as [x|x| |i k| |i k v|i| |].
+    destruct a as [x|x| |i k| |i|i k|i v|i|i n|i| |n|].
     - (* ALock *)
       destruct (wlb_lock _ _ _ _ Hw) as (Hw0 & Hw1 & Hw'). clear Hw. rename Hw' into Hw.
       specialize (Pc Hw1).
       destruct x.
       + destruct (writer s) as [w|] eqn:Ew; [discriminate|]. destruct (readers s) as [|q rd] eqn:Er; [|discriminate].
         cbn in Hex. inversion Hex; subst s'; clear Hex. unfold Inv; cbn [readers writer mem ths].
-        split; [constructor|split; [reflexivity|split; [exact Hm|]]].
+        split; [constructor|split; [reflexivity|split; [apply MemKeep; discriminate|]]].
         apply Others.
         * intros; tauto.
         * intros t' Hne. split; intro H; [inversion H; congruence|discriminate].
@@ -221,10 +300,11 @@ Section Invariant.
           -- exact HA.
           -- exact HR.
           -- exact HIr.
+          -- apply HFr. reflexivity.
       + destruct (writer s) as [w|] eqn:Ew; [discriminate|].
         cbn in Hex. inversion Hex; subst s'; clear Hex. unfold Inv; cbn [readers writer mem ths].
         assert (Hnin : ~ In t (readers s)) by (intro Hin; apply HMs in Hin; congruence).
-        split; [constructor; assumption|split; [intro H; congruence|split; [exact Hm|]]].
+        split; [constructor; assumption|split; [intro H; congruence|split; [apply MemKeep; discriminate|]]].
         apply Others.
         * intros t' Hne. cbn. split; [intros [E|E]; [congruence|exact E]|intro; right; assumption].
         * intros; tauto.
@@ -237,6 +317,7 @@ Section Invariant.
           -- exact HA.
           -- exact HR.
           -- exact HIr.
+          -- apply HFr. reflexivity.
     - (* AUnlock *)
       destruct (wlb_unlock _ _ _ _ Hw) as (Hw0 & Hw1 & Hw'). clear Hw. rename Hw' into Hw.
       specialize (Pc Hw1).
@@ -244,7 +325,7 @@ Section Invariant.
       + assert (Ew : writer s = Some t) by (apply HMx; exact Hw0).
         assert (Er : readers s = []) by (apply Hwr; congruence).
         inversion Hex; subst s'; clear Hex. unfold Inv; cbn [readers writer mem ths].
-        split; [exact Hnd|split; [intro H; congruence|split; [exact Hm|]]].
+        split; [exact Hnd|split; [intro H; congruence|split; [apply MemKeep; discriminate|]]].
         apply Others.
         * intros; tauto.
         * intros t' Hne. rewrite Ew. split; intro H; [discriminate|inversion H; congruence].
@@ -257,9 +338,10 @@ Section Invariant.
           -- exact HA.
           -- exact HR.
           -- exact HIr.
+          -- apply HFr. reflexivity.
       + assert (Hnw : writer s <> Some t) by (intro E; apply HMx in E; congruence).
         inversion Hex; subst s'; clear Hex. unfold Inv; cbn [readers writer mem ths].
-        split; [apply nodup_remove_tid; exact Hnd|split; [|split; [exact Hm|]]].
+        split; [apply nodup_remove_tid; exact Hnd|split; [|split; [apply MemKeep; discriminate|]]].
         { intro H. rewrite (Hwr H). reflexivity. }
         apply Others.
         * intros t' Hne. rewrite in_remove_tid. tauto.
@@ -273,17 +355,18 @@ Section Invariant.
           -- exact HA.
           -- exact HR.
           -- exact HIr.
+          -- apply HFr. reflexivity.
     - (* ARdSeal *)
       destruct (wlb_rdseal _ _ _ Hw) as (Hw0 & Hw'). clear Hw. rename Hw' into Hw.
       inversion Hex; subst s'; clear Hex. unfold Inv; cbn [readers writer mem ths].
-      split; [exact Hnd|split; [exact Hwr|split; [exact Hm|]]].
+      split; [exact Hnd|split; [exact Hwr|split; [apply MemKeep; discriminate|]]].
       apply Others; [intros; tauto|intros; tauto|].
       apply (th_ok_intro _ _ _ _ _ c); fold_pending th; cbn [acts holds acc results curi curk];
-        [exact Hw|exact Hpc|exact HMs|exact HMx|exact HC|exact HA|exact HR|exact HIr].
+        [exact Hw|exact Hpc|exact HMs|exact HMx|exact HC|exact HA|exact HR|exact HIr|apply HFr; reflexivity].
     - (* ARdSlot *)
       destruct (wlb_rdslot _ _ _ _ _ Hw) as (Hw0 & Hw'). clear Hw. rename Hw' into Hw.
       inversion Hex; subst s'; clear Hex. unfold Inv; cbn [readers writer mem ths].
-      split; [exact Hnd|split; [exact Hwr|split; [exact Hm|]]].
+      split; [exact Hnd|split; [exact Hwr|split; [apply MemKeep; discriminate|]]].
       apply Others; [intros; tauto|intros; tauto|].
       apply (th_ok_intro _ _ _ _ _ true); unfold pending; cbn [acts holds matched whole acc results curi curk negb];
         rewrite ?andb_true_r.
@@ -297,6 +380,7 @@ Section Invariant.
       + intros _. left. reflexivity.
       + exact HR.
       + exact HIr.
+      + apply HFr. reflexivity.
     - (* ACopy *)
       destruct (wlb_copy _ _ _ Hw) as (Hw0 & Hw'). clear Hw. rename Hw' into Hw.
       destruct (pending th) eqn:Ep.
@@ -304,7 +388,7 @@ Section Invariant.
         assert (Hmt : matched th = true) by (unfold pending in Ep; apply andb_true_iff in Ep; tauto).
         destruct (nth_error (sfit (mem s (curi th))) (length (acc th))) as [w|] eqn:En.
         * inversion Hex; subst s'; clear Hex. unfold Inv; cbn [readers writer mem ths].
-          split; [exact Hnd|split; [exact Hwr|split; [exact Hm|]]].
+          split; [exact Hnd|split; [exact Hwr|split; [apply MemKeep; discriminate|]]].
           apply Others; [intros; tauto|intros; tauto|].
           apply (th_ok_intro _ _ _ _ _ true); unfold pending; cbn [acts holds matched whole acc results curi curk negb];
             rewrite ?Hmt; cbn [andb]; rewrite ?Ea.
@@ -317,9 +401,12 @@ Section Invariant.
              rewrite (firstn_snoc _ _ _ _ En). rewrite <- Hacc. reflexivity.
           -- discriminate.
           -- exact HR.
-          -- exact HI.
-        * inversion Hex; subst s'; clear Hex. unfold Inv; cbn [readers writer mem ths].
-          split; [exact Hnd|split; [exact Hwr|split; [exact Hm|]]].
+          -- split; [exact HIi|exact HIp].
+          -- intros i v r0 E. discriminate.
+        * assert (Hsl : slot_ok (mem s (curi th))).
+          { apply (slot_ok_for_holder s t th (curi th) HInv Ht Hw0). intros v r0 E. rewrite Ea in E. discriminate. }
+          inversion Hex; subst s'; clear Hex. unfold Inv; cbn [readers writer mem ths].
+          split; [exact Hnd|split; [exact Hwr|split; [apply MemKeep; discriminate|]]].
           apply Others; [intros; tauto|intros; tauto|].
           apply (th_ok_intro _ _ _ _ _ false); unfold pending; cbn [acts holds matched whole acc results curi curk negb];
             rewrite ?Hmt; cbn [andb].
@@ -331,51 +418,103 @@ Section Invariant.
           -- intros _. apply nth_error_None in En.
              assert (Hall : acc th = sfit (mem s (curi th))).
              { rewrite Hacc. apply firstn_all2. exact En. }
-             destruct (Hm (curi th)) as [Hz|Hin].
+             destruct Hsl as [Hz|Hin].
              ++ right. left. rewrite <- Hkey. exact Hz.
              ++ right. right. rewrite <- Hkey, Hall. exact Hin.
           -- exact HR.
           -- exact HIr.
+          -- apply HFr. reflexivity.
       + inversion Hex; subst s'; clear Hex. unfold Inv; cbn [readers writer mem ths].
-        split; [exact Hnd|split; [exact Hwr|split; [exact Hm|]]].
+        split; [exact Hnd|split; [exact Hwr|split; [apply MemKeep; discriminate|]]].
         apply Others; [intros; tauto|intros; tauto|].
         apply (th_ok_intro _ _ _ _ _ false); fold_pending th; cbn [acts holds acc results curi curk];
           [exact Hw|intro H; rewrite Ep in H; discriminate|exact HMs|exact HMx
-          |intro H; rewrite Ep in H; discriminate|intros _; apply HA; reflexivity|exact HR|exact HIr].
-    - (* AWrSlot *)
-      destruct (wlb_wr _ _ (AWrSlot i k v) _ eq_refl Hw) as (Hw0 & Hw1 & Hw'). clear Hw. rename Hw' into Hw. specialize (Pc Hw1).
+          |intro H; rewrite Ep in H; discriminate|intros _; apply HA; reflexivity|exact HR|exact HIr
+          |apply HFr; reflexivity].
+    - (* ARdFields *)
+      destruct (wlb_rdfields _ _ _ _ Hw) as (Hw0 & Hw'). clear Hw. rename Hw' into Hw.
+      inversion Hex; subst s'; clear Hex. unfold Inv; cbn [readers writer mem ths].
+      split; [exact Hnd|split; [exact Hwr|split; [apply MemKeep; discriminate|]]].
+      apply Others; [intros; tauto|intros; tauto|].
+      apply (th_ok_intro _ _ _ _ _ c); fold_pending th; cbn [acts holds acc results curi curk];
+        [exact Hw|exact Hpc|exact HMs|exact HMx|exact HC|exact HA|exact HR|exact HIr|apply HFr; reflexivity].
+    - (* AWrKey: first member of the assignment; the slot is pending until the value follows *)
+      destruct (wlb_wr _ _ (AWrKey i k) _ eq_refl Hw) as (Hw0 & Hw1 & Hw'). clear Hw. rename Hw' into Hw. specialize (Pc Hw1).
+      destruct (pairs_key_next _ _ _ HIp) as (v & r' & Er). subst r.
+      assert (Hkv : In (k, v) INS) by (apply HIi; cbn [ins_of]; left; reflexivity).
       inversion Hex; subst s'; clear Hex. unfold Inv; cbn [readers writer mem ths].
       split; [exact Hnd|split; [exact Hwr|split]].
-      + intro j. unfold upd. destruct (N.eqb j i); [right; exact HIa|apply Hm].
+      + intro j. unfold upd. destruct (N.eqb_spec j i) as [->|Hji].
+        * right. eexists t, _, v, r'. split; [apply (nth_set_same _ _ _ _ _ Ht)|]. cbn [acts holds]. split; [reflexivity|exact Hw0].
+        * left. apply (slot_ok_for_holder s t th j HInv Ht); [congruence|]. intros v0 r0 E. rewrite Ea in E. discriminate.
       + apply (OthersW Hw0).
         apply (th_ok_intro _ _ _ _ _ false); fold_pending th; cbn [acts holds acc results curi curk];
-          [exact Hw|apply Pf; exact Pc|exact HMs|exact HMx|apply Pf; exact Pc|exact HA|exact HR|exact HIr].
+          [exact Hw|apply Pf; exact Pc|exact HMs|exact HMx|apply Pf; exact Pc|exact HA|exact HR|exact HIr|].
+        intros i0 v0 r0 E. inversion E; subst. unfold upd. rewrite N.eqb_refl. cbn [skey]. exact Hkv.
+    - (* AWrFit: second member; the slot is consistent again *)
+      destruct (wlb_wr _ _ (AWrFit i v) _ eq_refl Hw) as (Hw0 & Hw1 & Hw'). clear Hw. rename Hw' into Hw. specialize (Pc Hw1).
+      pose proof (HF i v r eq_refl) as Hkv.
+      inversion Hex; subst s'; clear Hex. unfold Inv; cbn [readers writer mem ths].
+      split; [exact Hnd|split; [exact Hwr|split]].
+      + intro j. left. unfold upd. destruct (N.eqb_spec j i) as [->|Hji].
+        * right. cbn [skey sfit]. exact Hkv.
+        * apply (slot_ok_for_holder s t th j HInv Ht); [congruence|]. intros v0 r0 E. rewrite Ea in E.
+          inversion E. congruence.
+      + apply (OthersW Hw0).
+        apply (th_ok_intro _ _ _ _ _ false); fold_pending th; cbn [acts holds acc results curi curk];
+          [exact Hw|apply Pf; exact Pc|exact HMs|exact HMx|apply Pf; exact Pc|exact HA|exact HR|exact HIr|].
+        intros i0 v0 r0 E. exfalso. exact (pairs_next_not_fit _ _ _ _ _ HIp eq_refl E).
+    - (* AWrSlotSeal *)
+      destruct (wlb_wr _ _ (AWrSlotSeal i) _ eq_refl Hw) as (Hw0 & Hw1 & Hw'). clear Hw. rename Hw' into Hw. specialize (Pc Hw1).
+      inversion Hex; subst s'; clear Hex. unfold Inv; cbn [readers writer mem ths].
+      split; [exact Hnd|split; [exact Hwr|split]].
+      + apply (MemWr Hw0); [discriminate|]. intro j. unfold upd. destruct (N.eqb_spec j i) as [->|_]; cbn; tauto.
+      + apply (OthersW Hw0).
+        apply (th_ok_intro _ _ _ _ _ false); fold_pending th; cbn [acts holds acc results curi curk];
+          [exact Hw|apply Pf; exact Pc|exact HMs|exact HMx|apply Pf; exact Pc|exact HA|exact HR|exact HIr|apply HFr; reflexivity].
+    - (* AWrSlotSealV *)
+      destruct (wlb_wr _ _ (AWrSlotSealV i n) _ eq_refl Hw) as (Hw0 & Hw1 & Hw'). clear Hw. rename Hw' into Hw. specialize (Pc Hw1).
+      inversion Hex; subst s'; clear Hex. unfold Inv; cbn [readers writer mem ths].
+      split; [exact Hnd|split; [exact Hwr|split]].
+      + apply (MemWr Hw0); [discriminate|]. intro j. unfold upd. destruct (N.eqb_spec j i) as [->|_]; cbn; tauto.
+      + apply (OthersW Hw0).
+        apply (th_ok_intro _ _ _ _ _ false); fold_pending th; cbn [acts holds acc results curi curk];
+          [exact Hw|apply Pf; exact Pc|exact HMs|exact HMx|apply Pf; exact Pc|exact HA|exact HR|exact HIr|apply HFr; reflexivity].
     - (* AWrHash *)
       destruct (wlb_wr _ _ (AWrHash i) _ eq_refl Hw) as (Hw0 & Hw1 & Hw'). clear Hw. rename Hw' into Hw. specialize (Pc Hw1).
       inversion Hex; subst s'; clear Hex. unfold Inv; cbn [readers writer mem ths].
       split; [exact Hnd|split; [exact Hwr|split]].
-      + intro j. unfold upd. destruct (N.eqb j i); [left; reflexivity|apply Hm].
+      + apply (MemWr Hw0); [discriminate|]. intro j. unfold upd. destruct (N.eqb_spec j i) as [->|_]; cbn; tauto.
       + apply (OthersW Hw0).
         apply (th_ok_intro _ _ _ _ _ false); fold_pending th; cbn [acts holds acc results curi curk];
-          [exact Hw|apply Pf; exact Pc|exact HMs|exact HMx|apply Pf; exact Pc|exact HA|exact HR|exact HIr].
+          [exact Hw|apply Pf; exact Pc|exact HMs|exact HMx|apply Pf; exact Pc|exact HA|exact HR|exact HIr|apply HFr; reflexivity].
     - (* AWrSeal *)
       destruct (wlb_wr _ _ AWrSeal _ eq_refl Hw) as (Hw0 & Hw1 & Hw'). clear Hw. rename Hw' into Hw. specialize (Pc Hw1).
       destruct (N.eqb ((lseal th + 1) mod M32) 0).
       + inversion Hex; subst s'; clear Hex. unfold Inv; cbn [readers writer mem ths].
         split; [exact Hnd|split; [exact Hwr|split]].
-        * intro j. exact (Hm j).
+        * apply (MemWr Hw0); [discriminate|]. intro j. cbn. tauto.
         * apply (OthersW Hw0).
           apply (th_ok_intro _ _ _ _ _ false); fold_pending th; cbn [acts holds acc results curi curk];
-            [exact Hw|apply Pf; exact Pc|exact HMs|exact HMx|apply Pf; exact Pc|exact HA|exact HR|exact HIr].
+            [exact Hw|apply Pf; exact Pc|exact HMs|exact HMx|apply Pf; exact Pc|exact HA|exact HR|exact HIr|apply HFr; reflexivity].
       + inversion Hex; subst s'; clear Hex. unfold Inv; cbn [readers writer mem ths].
-        split; [exact Hnd|split; [exact Hwr|split; [exact Hm|]]].
-        apply (OthersW Hw0).
+        split; [exact Hnd|split; [exact Hwr|split]].
+        * apply (MemWr Hw0); [discriminate|]. intro j. tauto.
+        * apply (OthersW Hw0).
+          apply (th_ok_intro _ _ _ _ _ false); fold_pending th; cbn [acts holds acc results curi curk];
+            [exact Hw|apply Pf; exact Pc|exact HMs|exact HMx|apply Pf; exact Pc|exact HA|exact HR|exact HIr|apply HFr; reflexivity].
+    - (* AWrSealV *)
+      destruct (wlb_wr _ _ (AWrSealV n) _ eq_refl Hw) as (Hw0 & Hw1 & Hw'). clear Hw. rename Hw' into Hw. specialize (Pc Hw1).
+      inversion Hex; subst s'; clear Hex. unfold Inv; cbn [readers writer mem ths].
+      split; [exact Hnd|split; [exact Hwr|split]].
+      + apply (MemWr Hw0); [discriminate|]. intro j. tauto.
+      + apply (OthersW Hw0).
         apply (th_ok_intro _ _ _ _ _ false); fold_pending th; cbn [acts holds acc results curi curk];
-          [exact Hw|apply Pf; exact Pc|exact HMs|exact HMx|apply Pf; exact Pc|exact HA|exact HR|exact HIr].
+          [exact Hw|apply Pf; exact Pc|exact HMs|exact HMx|apply Pf; exact Pc|exact HA|exact HR|exact HIr|apply HFr; reflexivity].
     - (* ARet *)
       destruct (wlb_ret _ _ _ Hw) as (Hw0 & Hw'). clear Hw. rename Hw' into Hw. specialize (Pc Hw0).
       inversion Hex; subst s'; clear Hex. unfold Inv; cbn [readers writer mem ths].
-      split; [exact Hnd|split; [exact Hwr|split; [exact Hm|]]].
+      split; [exact Hnd|split; [exact Hwr|split; [apply MemKeep; discriminate|]]].
       apply Others; [intros; tauto|intros; tauto|].
       apply (th_ok_intro _ _ _ _ _ false); unfold pending; cbn [acts holds matched whole acc results curi curk andb].
       + exact Hw.
@@ -386,6 +525,7 @@ Section Invariant.
       + intros _. exact (HA Pc).
       + constructor; [exact (HA Pc)|exact HR].
       + exact HIr.
+      + apply HFr. reflexivity.
   Qed.
 
   Lemma step_inv : forall s t, Inv s -> Inv (step s t).
@@ -401,20 +541,24 @@ Section Invariant.
 
   Lemma init_inv : forall progs,
     Forall (fun p => wlb None false p = true) progs ->
-    Forall (fun p => Forall ins_ok p) progs ->
+    Forall (fun p => incl (ins_of p) INS /\ pairs_ok p = true) progs ->
     Inv (init progs).
   Proof.
     intros progs Hw Hi. unfold Inv, init; cbn [readers writer mem ths].
-    split; [constructor|split; [reflexivity|split; [intro; left; reflexivity|]]].
+    split; [constructor|split; [reflexivity|split; [intro; left; left; reflexivity|]]].
     intros t th Hn. rewrite nth_error_map in Hn.
     destruct (nth_error progs t) as [p|] eqn:Ep; [|discriminate]. inversion Hn; subst th; clear Hn.
     apply nth_error_In in Ep. rewrite Forall_forall in Hw, Hi.
-    unfold th_ok, init_thread, pending; cbn.
-    repeat split; try discriminate; try (intro; contradiction).
-    - exists false. split; [apply Hw; exact Ep|discriminate].
+    apply (th_ok_intro _ _ _ _ _ false); unfold init_thread, pending; cbn.
+    - apply Hw; exact Ep.
+    - discriminate.
+    - split; [discriminate|intros []].
+    - split; discriminate.
+    - discriminate.
     - intros _. left. reflexivity.
     - constructor.
     - apply Hi. exact Ep.
+    - intros i v r E. specialize (Hw p Ep). cbn in Hw. rewrite E in Hw. cbn in Hw. discriminate.
   Qed.
 
   (* ---------------------------------------------------------- consequences *)
@@ -433,20 +577,23 @@ Section Invariant.
     th_ok rd wr mm t th -> acts th = a :: r -> accesses th a <> [] -> holds th <> None.
   Proof.
     intros rd wr mm t th a r ((c & Hw & _) & _) Ea Hacc. rewrite Ea in Hw.
-    destruct a; cbn in Hacc; try congruence; cbn [wlb] in Hw; repeat rewrite andb_true_iff in Hw.
-    all: try (destruct Hw as (Hw & _); try destruct Hw as (Hw & _); try (apply hb_eq_none in Hw; exact Hw);
-              apply hb_eq_true in Hw; congruence).
+    destruct a; cbn in Hacc; try congruence;
+      try (match type of Hw with wlb _ _ (?a :: _) = true =>
+             destruct (wlb_wr _ _ a _ eq_refl Hw) as (H & _); congruence end).
+    - exact (proj1 (wlb_rdseal _ _ _ Hw)).
+    - exact (proj1 (wlb_rdslot _ _ _ _ _ Hw)).
+    - exact (proj1 (wlb_copy _ _ _ Hw)).
+    - exact (proj1 (wlb_rdfields _ _ _ _ Hw)).
   Qed.
 
   Lemma writes_hold_x : forall rd wr mm t th a r,
     th_ok rd wr mm t th -> acts th = a :: r -> existsb snd (accesses th a) = true -> holds th = Some true.
   Proof.
     intros rd wr mm t th a r ((c & Hw & _) & _) Ea Hacc. rewrite Ea in Hw.
-    destruct a; cbn in Hacc; try discriminate; cbn [wlb] in Hw; repeat rewrite andb_true_iff in Hw.
-    - destruct (pending th); discriminate.
-    - destruct Hw as ((Hw & _) & _). apply hb_eq_true in Hw. exact Hw.
-    - destruct Hw as ((Hw & _) & _). apply hb_eq_true in Hw. exact Hw.
-    - destruct Hw as ((Hw & _) & _). apply hb_eq_true in Hw. exact Hw.
+    destruct a; cbn in Hacc; try discriminate;
+      try (match type of Hw with wlb _ _ (?a :: _) = true =>
+             destruct (wlb_wr _ _ a _ eq_refl Hw) as (H & _); exact H end).
+    destruct (pending th); discriminate.
   Qed.
 
   Lemma conflict_inv : forall l1 l2, conflict l1 l2 = true ->
@@ -509,61 +656,117 @@ Proof.
     (p_lock (pr_clear_one P)); cbn in H; intuition congruence.
 Qed.
 
-Lemma compile_wlb : forall P bits o, proto_ok P = true -> wlb None false (compile P bits o) = true.
+Definition no_fit_head (l : list action) : Prop := forall i v r, l <> AWrFit i v :: r.
+
+Lemma proto_ok_locks2 : forall P, proto_ok P = true ->
+  (p_lock (pr_save P) = Shared \/ p_lock (pr_save P) = Exclusive) /\ p_lock (pr_load P) = Exclusive.
 Proof.
-  intros P bits o H. destruct (proto_ok_locks P H) as (Hf & Hr & Hi & Hc & Ho).
-  destruct o; unfold compile, lk, ulk.
-  - rewrite Hr. destruct Hf as [E|E]; rewrite E; reflexivity.
-  - rewrite Hi. reflexivity.
-  - rewrite Hc. reflexivity.
-  - rewrite Ho. reflexivity.
+  intros P H. unfold proto_ok in H. repeat rewrite andb_true_iff in H.
+  unfold has_lock, is_excl in H. decompose [and] H. clear H.
+  destruct (p_lock (pr_save P)), (p_lock (pr_load P)); try discriminate; split; auto.
+Qed.
+
+(* what one compiled method contributes: well locked, writes hash/fitness in
+   pairs, and stores exactly the pairs of its operation *)
+Definition ins_op (o : op) : list (key * list word) :=
+  match o with OInsert k v => [(k, v)] | OLoad _ recs => recs | _ => [] end.
+
+Definition tail_ok (rest : list action) : Prop :=
+  wlb None false rest = true /\ pairs_ok rest = true /\ no_fit_head rest.
+
+Lemma rdfields_app : forall h l rest, h <> None ->
+  wlb h false rest = true -> pairs_ok rest = true -> no_fit_head rest ->
+  wlb h false (map ARdFields l ++ rest) = true /\ pairs_ok (map ARdFields l ++ rest) = true /\
+  no_fit_head (map ARdFields l ++ rest) /\ ins_of (map ARdFields l ++ rest) = ins_of rest.
+Proof.
+  intros h l rest Hh Hw Hp Hn. induction l as [|i l (IW & IP & IN & II)]; cbn [map app].
+  - repeat split; assumption.
+  - repeat split.
+    + cbn [wlb]. rewrite (hb_neq_none _ Hh), IW. reflexivity.
+    + cbn [pairs_ok]. rewrite IP. destruct (map ARdFields l ++ rest) as [|[] ?] eqn:E; try reflexivity.
+      exfalso. exact (IN _ _ _ eq_refl).
+    + intros i0 v r E. discriminate.
+    + cbn [ins_of]. exact II.
+Qed.
+
+Lemma loadrecs_app : forall bits ts recs rest,
+  wlb (Some true) false rest = true -> pairs_ok rest = true -> no_fit_head rest ->
+  let body := flat_map (fun kv => let i := idx bits (fst kv) in
+                                  [AWrKey i (fst kv); AWrFit i (snd kv); AWrSlotSealV i ts]) recs in
+  wlb (Some true) false (body ++ rest) = true /\ pairs_ok (body ++ rest) = true /\
+  no_fit_head (body ++ rest) /\ ins_of (body ++ rest) = recs ++ ins_of rest.
+Proof.
+  intros bits ts recs rest Hw Hp Hn. induction recs as [|[k v] recs (IW & IP & IN & II)]; cbn [flat_map app fst snd].
+  - repeat split; assumption.
+  - cbn zeta in *. repeat split.
+    + cbn [wlb hb_eq Bool.eqb negb andb]. exact IW.
+    + cbn [pairs_ok]. rewrite N.eqb_refl, IP. cbn [andb].
+      match goal with |- context [match ?l with _ => _ end] => destruct l as [|[] ?] eqn:E end; try reflexivity.
+      exfalso. exact (IN _ _ _ eq_refl).
+    + intros i0 v0 r E. discriminate.
+    + cbn [ins_of]. rewrite II. reflexivity.
+Qed.
+
+Lemma compile_app : forall P bits o rest, proto_ok P = true -> tail_ok rest ->
+  tail_ok (compile P bits o ++ rest) /\ ins_of (compile P bits o ++ rest) = ins_op o ++ ins_of rest.
+Proof.
+  intros P bits o rest H (Hw & Hp & Hn). destruct (proto_ok_locks P H) as (Hf & Hr & Hi & Hc & Ho).
+  destruct (proto_ok_locks2 P H) as (Hs & Hl).
+  assert (Hnf : match rest with AWrFit _ _ :: _ => false | _ => true end = true).
+  { destruct rest as [|[] ?]; try reflexivity. exfalso. exact (Hn _ _ _ eq_refl). }
+  unfold tail_ok, no_fit_head. destruct o; unfold compile, lk, ulk.
+  - rewrite Hr. destruct Hf as [E|E]; rewrite E; cbn [app wlb pairs_ok ins_of hb_eq Bool.eqb negb andb ins_op];
+      rewrite Hw, Hp, Hnf; repeat split; try reflexivity; intros; discriminate.
+  - rewrite Hi. cbn [app wlb pairs_ok ins_of hb_eq Bool.eqb negb andb ins_op].
+    rewrite Hw, Hp, Hnf, N.eqb_refl. repeat split; try reflexivity; intros; discriminate.
+  - rewrite Hc. cbn [app wlb pairs_ok ins_of hb_eq Bool.eqb negb andb ins_op].
+    rewrite Hw, Hp, Hnf. repeat split; try reflexivity; intros; discriminate.
+  - rewrite Ho. cbn [app wlb pairs_ok ins_of hb_eq Bool.eqb negb andb ins_op].
+    rewrite Hw, Hp, Hnf. repeat split; try reflexivity; intros; discriminate.
+  - cbn [ins_op app].
+    assert (G : forall x, wlb (Some x) false (map ARdFields (indices (2 ^ bits)) ++ AUnlock x :: rest) = true /\
+                          pairs_ok (map ARdFields (indices (2 ^ bits)) ++ AUnlock x :: rest) = true /\
+                          no_fit_head (map ARdFields (indices (2 ^ bits)) ++ AUnlock x :: rest) /\
+                          ins_of (map ARdFields (indices (2 ^ bits)) ++ AUnlock x :: rest) = ins_of (AUnlock x :: rest)).
+    { intro x. apply rdfields_app; [discriminate| | |intros ? ? ? E; discriminate].
+      - cbn [wlb hb_eq]. rewrite Bool.eqb_reflx, Hw. reflexivity.
+      - cbn [pairs_ok]. rewrite Hnf, Hp. reflexivity. }
+    destruct Hs as [E|E]; rewrite E; cbn [app]; rewrite <- app_assoc; cbn [app];
+      [destruct (G false) as (GW & GP & GN & GI)|destruct (G true) as (GW & GP & GN & GI)];
+      cbn [wlb pairs_ok ins_of hb_eq Bool.eqb negb andb]; rewrite GW, GP, GI; cbn [ins_of];
+      (repeat split; try reflexivity; try (intros; discriminate));
+      match goal with |- context [match ?l with _ => _ end] => destruct l as [|[] ?] eqn:E' end; try reflexivity;
+      exfalso; exact (GN _ _ _ eq_refl).
+  - rewrite Hl. cbn [ins_op app]. rewrite <- !app_assoc. cbn [app].
+    destruct (loadrecs_app bits ts recs (AWrSealV ts :: AUnlock true :: rest)) as (GW & GP & GN & GI).
+    + cbn [wlb hb_eq Bool.eqb negb andb]. exact Hw.
+    + cbn [pairs_ok]. rewrite Hnf, Hp. reflexivity.
+    + intros ? ? ? E; discriminate.
+    + cbn zeta in *. cbn [wlb pairs_ok ins_of hb_eq Bool.eqb negb andb]. rewrite GW, GP.
+      repeat split; try reflexivity; try (intros; discriminate).
+      * match goal with |- context [match ?l with _ => _ end] => destruct l as [|[] ?] eqn:E' end; try reflexivity.
+        exfalso. exact (GN _ _ _ eq_refl).
+      * rewrite GI. reflexivity.
+Qed.
+
+Lemma program_ok : forall P bits ops, proto_ok P = true ->
+  tail_ok (program P bits ops) /\ ins_of (program P bits ops) = flat_map ins_op ops.
+Proof.
+  intros P bits ops H. unfold program. induction ops as [|o ops (IT & II)]; cbn [flat_map].
+  - split; [|reflexivity]. repeat split. intros ? ? ? E. discriminate.
+  - destruct (compile_app P bits o _ H IT) as (T & I). split; [exact T|]. rewrite I, II. reflexivity.
 Qed.
 
 Lemma program_wlb : forall P bits ops, proto_ok P = true -> wlb None false (program P bits ops) = true.
-Proof.
-  intros P bits ops H. unfold program. induction ops as [|o ops IH]; cbn [flat_map]; [reflexivity|].
-  apply wlb_app; [apply compile_wlb; exact H|exact IH].
-Qed.
-
-Lemma ins_ok_self : forall l a, In a l -> ins_ok (ins_of l) a.
-Proof.
-  intros l a Hin. destruct a; cbn; try exact I.
-  unfold ins_of. apply in_flat_map. exists (AWrSlot i k v). split; [exact Hin|left; reflexivity].
-Qed.
-
-Lemma ins_ok_all : forall progs,
-  Forall (fun p => Forall (ins_ok (ins_of (concat progs))) p) progs.
-Proof.
-  intro progs. apply Forall_forall. intros p Hp. apply Forall_forall. intros a Ha.
-  apply ins_ok_self. apply in_concat. exists p. split; assumption.
-Qed.
+Proof. intros. apply program_ok. assumption. Qed.
 
 (* every reachable state of well-locked programs satisfies the invariant *)
 Lemma reachable_inv : forall progs sched,
-  Forall (fun p => wlb None false p = true) progs ->
-  Inv (ins_of (concat progs)) (run sched (init progs)).
+  Forall (fun p => wlb None false p = true /\ pairs_ok p = true) progs ->
+  Inv (flat_map ins_of progs) (run sched (init progs)).
 Proof.
-  intros progs sched Hw. apply run_inv. apply init_inv; [exact Hw|apply ins_ok_all].
-Qed.
-
-Lemma ins_of_app : forall a b, ins_of (a ++ b) = ins_of a ++ ins_of b.
-Proof. intros. unfold ins_of. apply flat_map_app. Qed.
-
-Lemma ins_of_compile : forall P bits o,
-  ins_of (compile P bits o) = match o with OInsert k v => [(k, v)] | _ => [] end.
-Proof.
-  intros P bits o. destruct o; unfold compile, lk, ulk.
-  - destruct (p_lock (pr_find P)), (p_result (pr_find P)); reflexivity.
-  - destruct (p_lock (pr_insert P)); reflexivity.
-  - destruct (p_lock (pr_clear P)); reflexivity.
-  - destruct (p_lock (pr_clear_one P)); reflexivity.
-Qed.
-
-Lemma ins_of_program : forall P bits ops k v,
-  In (k, v) (ins_of (program P bits ops)) -> In (OInsert k v) ops.
-Proof.
-  intros P bits ops k v. unfold program. induction ops as [|o ops IH]; cbn [flat_map]; [intros []|].
-  rewrite ins_of_app, ins_of_compile. intro H. apply in_app_or in H. destruct H as [H|H].
-  - destruct o; try contradiction. destruct H as [E|[]]. inversion E; subst. left. reflexivity.
-  - right. apply IH. exact H.
+  intros progs sched Hw. apply run_inv. apply init_inv.
+  - apply Forall_forall. intros p Hp. rewrite Forall_forall in Hw. apply Hw. exact Hp.
+  - apply Forall_forall. intros p Hp. rewrite Forall_forall in Hw. split; [|apply Hw; exact Hp].
+    intros x Hx. apply in_flat_map. exists p. split; assumption.
 Qed.
